@@ -61,7 +61,7 @@ func init() {
 				}
 			}
 		},
-		Required: []string{"accessor_steps", "getter_checks", "copies_checked_unchanged", "programs_with_copies", "fork_phase0", "fork_altair", "fork_bellatrix", "fork_capella", "fork_deneb", "fork_electra", "op_SetBalances", "op_AddValidator", "op_ValidatorSet", "op_SeedRandao", "forky_sibling_deposits"},
+		Required: []string{"accessor_steps", "getter_checks", "copies_checked_unchanged", "programs_with_copies", "fork_phase0", "fork_altair", "fork_bellatrix", "fork_capella", "fork_deneb", "fork_electra", "op_SetBalances", "op_AddValidator", "op_ValidatorSet", "op_SeedRandao", "op_SubViews", "subview_getter_checks", "forky_sibling_deposits"},
 	})
 }
 
@@ -183,8 +183,10 @@ func (a *accCtx) step(s *accState, viol func(sig, what string)) string {
 		}
 	}
 	x := rng.Uint64() >> uint(rng.IntN(64))
-	choice := rng.IntN(34)
+	choice := rng.IntN(36)
 	switch choice {
+	case 34, 35:
+		return a.subViews(s, viol)
 	case 0:
 		g, err := st.Slot()
 		if check("Slot", err) {
